@@ -374,10 +374,10 @@ Fixpoint observable (sh : shape) (n : node) (d : delta) : bool :=
   end.
 
 (* ------------------------------------------------------------------ values and equality *)
-(* Value::equals on value().  A bundle value carries a validity mask per field and a map only
-   holds the live keys, so there validity is compared first ([strict]); the value of a fixed
-   list has no element validity: a never-set scalar element reads as 0, an unset collection
-   element as empty *)
+(* Value::equals on value().  A bundle value carries a validity mask per field, so there (and at
+   the root, where the driver compares valid() itself) validity is compared first ([strict]);
+   the elements of a fixed list and the values of a map have no validity of their own: a
+   never-set scalar reads as 0, an unset collection as empty *)
 Fixpoint veqm (strict : bool) (sh : shape) (a b : node) : bool :=
   (negb strict || Bool.eqb (nvalid a) (nvalid b)) &&
   ((strict && negb (nvalid a)) ||
@@ -394,7 +394,7 @@ Fixpoint veqm (strict : bool) (sh : shape) (a b : node) : bool :=
        let lx := filter slot_live x in
        let ly := filter slot_live y in
        (if list_eq_dec Z.eq_dec (map fst lx) (map fst ly) then true else false) &&
-       forallb (fun b => b) (zipw (fun p q => veqm true e (snd (snd p)) (snd (snd q))) lx ly)
+       forallb (fun b => b) (zipw (fun p q => veqm false e (snd (snd p)) (snd (snd q))) lx ly)
    | TSL _ e, NIdx _ _ x, NIdx _ _ y => forallb (fun b => b) (zipw (veqm false e) x y)
    | TSB fs, NIdx _ _ x, NIdx _ _ y => forallb (fun b => b) (zipw3 (veqm true) fs x y)
    | _, _, _ => false
